@@ -185,8 +185,11 @@ func (g *gen) inner(depth int, allowHelpers bool) string {
 		return g.pick([]string{"lit", "a b", "", "x&amp;y", "1"})
 	case n < 84:
 		return `{{val .F}}`
-	case n < 88:
+	case n < 87:
 		return `{{.F | html}}`
+	case n < 88:
+		// predefined escaper with several arguments (rewritten through _eval_args_)
+		return g.pick([]string{`{{html .F .G}}`, `{{urlquery .G .F}}`, `{{html .F "-" .W}}`})
 	case n < 91:
 		return `{{$x := .G}}{{$x}}`
 	case n < 94:
@@ -371,7 +374,7 @@ func (g *gen) genSet(nHelpers, nTops, nBad int, extras bool) {
 			`<p>{{.F}}<`,
 			`<p title="{{.F}}`,
 			`<a href='{{.F}}">x</a>`,
-			`<p>{{printf "%s" .F}}</p>`,
+			`<p>{{printf "%s" .C}}{{printf "%d" 3}}</p>`,
 			`<p>{{index .L 7}}</p>`,
 			`<p>{{.F.G.H}}</p>`,
 			`<p>{{call .F}}</p>`,
@@ -576,6 +579,19 @@ func (g *gen) data(tag string, depth int) *Val {
 	v := &Val{K: kind, S: "o" + tag, F: map[string]*Val{}}
 	v.F["F"] = g.leaf(tag + "F")
 	v.F["G"] = g.leaf(tag + "G")
+	if kind == "obj" && g.chance(0.3) {
+		// pointers to non-Stringer values (dereferenced by the sanitizers'
+		// argument evaluation)
+		f := g.pick([]string{"F", "G"})
+		switch g.r.Intn(2) {
+		case 0:
+			// (one level only: text/template's own printing dereferences a
+			// pointer once, a **string would print as an address)
+			v.F[f] = &Val{K: "ptrstr", S: g.pick(adversarial) + "#" + tag + "p"}
+		default:
+			v.F[f] = &Val{K: "ptrint", I: g.r.Intn(1000)}
+		}
+	}
 	v.F["C"] = &Val{K: "bool", B: g.chance(0.6)}
 	if kind == "map" {
 		v.F["U"] = &Val{K: "str", S: g.pick([]string{"/u/" + tag, "https://h.x/" + tag, "javascript:x" + tag, "u" + tag})}
